@@ -46,6 +46,15 @@ def strategy(tier):
     return em.case_strategy(max_steps=params(tier)['max_steps'], max_lines=50)
 
 
+def enumerate_cases(tier, shard, nshards, seed):
+    """Single-edit grid over the saturated and template programs (every node x a few donors x forms x pars, plus remove); the drawn histories
+    of strategy() come on top."""
+
+    from .. import gen
+
+    yield from em.single_edit_grid(gen.saturated_programs() + gen.SYN_PROGRAMS, tier, shard, nshards, seed, thin=3 if tier == 'quick' else 1)
+
+
 def _context_rich(src_lines, extent) -> bool:
     if not extent:
         return False
